@@ -277,6 +277,14 @@ def run_cfg(ctx, fx):
 
     def cap_path(i):
         o = caps[i]
+        # (`let timeout = self.config.timeout;` in front of the async block: the capture is a local that was assigned once, from the field)
+        for _hop in range(2):
+            if o["k"] in ("copy", "move") and len(o["p"]) == 1 and o["p"][0] != 1:
+                defs_ = [st_ for bl_ in pb.blocks if not bl_["c"] for st_ in bl_["s"] if st_["k"] == "assign" and st_["p"] == o["p"]]
+                if len(defs_) == 1 and defs_[0]["r"]["k"] == "use" and defs_[0]["r"]["o"].get("k") in ("copy", "move"):
+                    o = defs_[0]["r"]["o"]
+                    continue
+            break
         if o["k"] not in ("copy", "move") or o["p"][0] != 1:
             return None
         names = []
@@ -356,7 +364,41 @@ def run_cfg(ctx, fx):
     if ok:
         wt = wraps[0][1]
         r0 = rb.origins(wt["args"][sig[0]])
-        ok = all(o.kind == "call" and o.site == (inv[0][0],) for o in r0) and is_cfg_field(rb, wt["args"][sig[1]], "timeout" if sig[2] == "option" else None, bind)
+        ok = all(o.kind == "call" and o.site == (inv[0][0],) for o in r0) and is_cfg_field(rb, wt["args"][sig[1]], "timeout" if sig[2] in ("option", "duration") else None, bind)
+        if ok and sig[2] == "duration":
+            # the limit handed over is what was found inside `Some(..)` of the configured timeout, and the handler future is awaited
+            # without the wrapper only on the `None` side of that test
+            lr = rb.origins(wt["args"][sig[1]])
+            ok = bool(lr) and all(any(str(e).endswith(":Some") for e in o.proj) for o in lr)
+            sw = None
+            for bi2, blk2 in enumerate(rb.blocks):
+                if blk2["c"] or blk2["t"].get("k") != "switch" or not blk2["s"]:
+                    continue
+                last = blk2["s"][-1]
+                r2 = last.get("r") or {}
+                if last.get("k") == "assign" and r2.get("k") == "discr" and r2.get("adt") == "core::option::Option" and "core::time::Duration" in (r2.get("ty") or "") and blk2["t"].get("o", {}).get("p") == last.get("p"):
+                    if is_cfg_field(rb, {"k": "copy", "p": r2["p"]}, "timeout", bind):
+                        sw = (bi2, blk2, r2)
+            if ok and sw is not None:
+                bi2, blk2, r2 = sw
+                named = {val: r2["variants"].get(val) for val, _tg in blk2["t"]["targets"]}
+                some_t = [tg for val, tg in blk2["t"]["targets"] if named.get(val) == "Some"]
+                none_t = [tg for val, tg in blk2["t"]["targets"] if named.get(val) == "None"]
+                other = blk2["t"].get("otherwise")
+                if not some_t and other is not None and none_t:
+                    some_t = [other]
+                if not none_t and other is not None and some_t:
+                    none_t = [other]
+                if len(some_t) == 1 and len(none_t) == 1:
+                    rs_ = rb.reachable_from(some_t[0], stop={bi2})
+                    rn_ = rb.reachable_from(none_t[0], stop={bi2})
+                    wrap_b = wraps[0][0]
+                    direct = [pb_ for pb_, pt_ in rb.normal_calls() if (pt_.get("callee") or "").endswith(("Future::poll", "poll_unpin")) and any(o.kind == "call" and o.site == (inv[0][0],) for o in rb.polled_future_origins(pb_))]
+                    ok = wrap_b in rs_ and wrap_b not in rn_ and bool(direct) and all(d_ in rn_ and d_ not in rs_ for d_ in direct)
+                else:
+                    ok = False
+            else:
+                ok = False
     ctx.require(ok, "R11.1", "every-task-through-wrapper", "every Task's handler future must be handed to the timeout wrapper together with the configured timeout", fn=rb_f["def"], site=wraps[0][1]["l"] if wraps else lf["loc"])
     # R11.3 the reaction to the wrapper's outcome
     A = loops.lifecycle_alphabet()
@@ -425,6 +467,11 @@ def wrapper_sig(fx, t):
         return (fut[0], opt[0], "option", t_field)
     if len(fut) == 1 and len(cfgs) == 1 and not opt:
         return (fut[0], cfgs[0], "config", t_field)
+    # the wrapper is only called when a limit is configured and is given the limit itself
+    # (`let Some(limit) = timeout else { task.await; continue }; with_deadline(task, limit).await`)
+    durs = [i for i, a in enumerate(tys) if a == "core::time::Duration"]
+    if len(fut) == 1 and len(durs) == 1 and not opt and not cfgs:
+        return (fut[0], durs[0], "duration", t_field)
     return None
 
 
@@ -494,7 +541,7 @@ def check_wrapper(ctx, fx, co, sig=(0, 1, "option", -1)):
     b = ctx.body(fx, co)
     inst = co["def"]
     fut_up, lim_up, lim_kind, t_field_ = sig
-    pre_limited = False
+    pre_limited = lim_kind == "duration"  # the caller only gets here with a limit in its hands (R11.1 checks that side)
     split = _split_wrapper(ctx, fx, co, sig)
     if split is not None:
         fut_up, lim_up = split
@@ -541,7 +588,7 @@ def check_wrapper(ctx, fx, co, sig=(0, 1, "option", -1)):
         if c.startswith("futures_timer::") and c.endswith("::new"):
             rs = b.origins(t["args"][0])
             ok = all(o.kind == "upvar" and o.site == lim_up and (pre_limited or any(str(e).startswith("d1:Some") or str(e).startswith("d1") for e in o.proj))
-                     and (lim_kind == "option" or [e for e in o.proj if e != "*"][:1] == ["f%d" % t_field_]) for o in rs) and rs
+                     and (lim_kind in ("option", "duration") or [e for e in o.proj if e != "*"][:1] == ["f%d" % t_field_]) for o in rs) and rs
             ctx.require(ok, "R11.2", "delay-gets-configured-limit", "Delay::new must receive exactly the configured timeout: %s" % sorted(map(str, rs)), fn=inst, site=t["l"])
         if c.endswith("FutureExt::map"):
             rs = roots(b, t["args"][0])
